@@ -218,11 +218,24 @@ def worker_main(argv):
     mod = load_prop(pid)
     ctx = Ctx(pid, tier, seed)
     timeout = getattr(mod, "CASE_TIMEOUT", {"quick": 120, "thorough": 600})[tier]
-    cases = (c for i, c in enumerate(mod.workload(tier, seed)) if i % n == k)
+    if len(argv) > 7 and argv[6] == "opt":
+        # a shard of the "interpreter started with -O" pass: every stride-th case of the workload
+        stride = max(1, int(argv[7]))
+        chosen = (c for i, c in enumerate(mod.workload(tier, seed)) if i % stride == seed % stride)
+        cases = (c for j, c in enumerate(chosen) if j % n == k)
+    else:
+        cases = (c for i, c in enumerate(mod.workload(tier, seed)) if i % n == k)
     try:
         run_cases(mod, ctx, cases, timeout)
     finally:
         reach.stop()
+    if len(argv) > 7 and argv[6] == "opt":
+        ctx.counters["cases_under_python_O"] = ctx.counters.get("cases", 0)
+        if sys.flags.optimize < 1:
+            ctx.problems.append({"kind": "harness-error", "case": None, "traceback": "the -O shard did not run optimized"})
+        for v in ctx.violations:
+            v["mechanism"] = "python-O:" + v["mechanism"]
+            v["message"] = "[interpreter started with -O] " + v["message"]
     res = {"counters": dict(ctx.counters), "keys": sorted(ctx.keys),
            "samples": ctx.samples, "violations": ctx.violations,
            "problems": ctx.problems, "lines": sorted(reach.lines), "slow": ctx.slow}
@@ -266,10 +279,20 @@ def run_property(pid, tier, seed, jobs=None, replay=None):
         nshards = getattr(mod, "SHARDS", {"quick": jobs, "thorough": jobs * 4})[tier]
         shard_timeout = getattr(mod, "SHARD_TIMEOUT", {"quick": 600, "thorough": 7200})[tier]
 
+        opt_stride = getattr(mod, "PYTHON_O_STRIDE", {}).get(tier)
+        n_opt = min(jobs, 4) if opt_stride else 0
+        if os.environ.get("VMON_NO_PYTHON_O"):
+            n_opt = 0
+
         def one(k):
             out = os.path.join(scratch, "shard%d.json" % k)
-            cmd = [sys.executable, "-m", "vmon.worker", pid, tier, str(seed),
-                   str(k), str(nshards), out]
+            if k >= nshards:
+                # the same cases again, every opt_stride-th of them, in an interpreter started with -O
+                cmd = [sys.executable, "-O", "-m", "vmon.worker", pid, tier, str(seed), str(k - nshards), str(n_opt), out,
+                       "opt", str(opt_stride)]
+            else:
+                cmd = [sys.executable, "-m", "vmon.worker", pid, tier, str(seed),
+                       str(k), str(nshards), out]
             try:
                 p = subprocess.run(cmd, timeout=shard_timeout, capture_output=True, text=True)
             except subprocess.TimeoutExpired:
@@ -282,7 +305,7 @@ def run_property(pid, tier, seed, jobs=None, replay=None):
             return res
 
         with ThreadPoolExecutor(jobs) as ex:
-            for res in ex.map(one, range(nshards)):
+            for res in ex.map(one, range(nshards + n_opt)):
                 merged["counters"].update(res.get("counters", {}))
                 merged["keys"].update(res.get("keys", ()))
                 for s in res.get("samples", ())[:2]:
